@@ -114,6 +114,14 @@ class TaintSpec:
         """reason if the expression is clean whatever its parts (rule specific idioms)."""
         return None
 
+    def yield_taint(self, node: ast.Yield, frame) -> frozenset:
+        """taint of the value a ``yield`` expression evaluates to (the reply to a command); default clean."""
+        return CLEAN
+
+    def self_chain_taint(self, node: ast.Attribute, chain: str, frame) -> frozenset | None:
+        """taint of ``self.a.b...`` (two or more attributes); None = default treatment through the class's attribute summary."""
+        return None
+
     def call_result(self, call: ast.Call, dotted: str, frame, operands: frozenset) -> frozenset | None:
         """override the taint of a call's result (e.g. an object of which only some fields are sanitised); None = default."""
         return None
@@ -521,6 +529,10 @@ class Frame:
             chain = attr_chain(e)
             if chain.startswith("self.") and chain.count(".") == 1 and self.cls and "self" in self.locals:
                 return self.prog.self_attr.get((self.mod.rel, self.cls, e.attr), CLEAN)
+            if chain.startswith("self.") and chain.count(".") >= 2 and "self" in self.locals:
+                t = self.spec.self_chain_taint(e, chain, self)
+                if t is not None:
+                    return t
             base = self.expr(e.value, probe)
             if not base:
                 return CLEAN
@@ -585,7 +597,7 @@ class Frame:
         if isinstance(e, ast.Yield):
             if e.value is not None:
                 self.expr(e.value, probe)
-            return CLEAN
+            return self.spec.yield_taint(e, self)
         if isinstance(e, ast.NamedExpr):
             t = self.expr(e.value, probe)
             self.bind(e.target, t, e.value)
